@@ -250,6 +250,57 @@ func report(prop, tier string, seed int, results []*harnessResult, loadDur, wall
 	if code == 0 && len(inconclusive) > 0 {
 		code = 2
 	}
+	// translator validation: replay end-of-harness witnesses natively; the native run must pass every assertion
+	if code != 1 && !noReplay {
+		type wjob struct {
+			h    string
+			path string
+			fail []string
+			err  error
+		}
+		var wj []*wjob
+		for _, r := range results {
+			if replayMode[r.info.name] == "model" || r.witness["end"] == nil {
+				continue
+			}
+			if tier == "quick" && len(wj) >= 2 {
+				break
+			}
+			os.MkdirAll(filepath.Join(verifDir, "replays"), 0o755)
+			p := filepath.Join(verifDir, "replays", fmt.Sprintf("witness_%s_%s.json", prop, strings.TrimPrefix(r.info.name, "VerifHarness_")))
+			rf := &replayFile{Property: prop, Harness: r.info.name, Obligation: "witness", Kind: "witness", Model: r.witness["end"]}
+			b, _ := json.MarshalIndent(rf, "", " ")
+			os.WriteFile(p, b, 0o644)
+			wj = append(wj, &wjob{h: r.info.name, path: p})
+		}
+		var wg sync.WaitGroup
+		sem := make(chan struct{}, 8)
+		for _, j := range wj {
+			wg.Add(1)
+			go func(j *wjob) {
+				defer wg.Done()
+				sem <- struct{}{}
+				defer func() { <-sem }()
+				rf := &replayFile{Property: prop, Harness: j.h, Kind: "witness"}
+				j.fail, _, j.err = replayNative(rf, j.path, extraOverlay)
+			}(j)
+		}
+		wg.Wait()
+		for _, j := range wj {
+			switch {
+			case j.err != nil:
+				inconclusive = append(inconclusive, fmt.Sprintf("%s: witness replay failed to run: %v", j.h, j.err))
+			case len(j.fail) > 0:
+				inconclusive = append(inconclusive, fmt.Sprintf("%s: native run of a path the engine found clean reports %v (translator or harness disagreement); model in %s", j.h, j.fail, j.path))
+			default:
+				witnessValidated++
+				os.Remove(j.path)
+			}
+		}
+		if code == 0 && len(inconclusive) > 0 {
+			code = 2
+		}
+	}
 	for i, m := range inconclusive {
 		if i < 20 {
 			fmt.Printf("INCONCLUSIVE property=%s %s\n", prop, m)
